@@ -644,7 +644,7 @@ func Run(run *ev.Run) {
 	run.Rule("unions: every subset of members set (<=5 members) x 5 formats, encode via reflection-built Go values, decode via documents carrying the same member subset; fixed: every length 0..n+2 (ASCII and one-byte-per-char content) x JSON/ROR2; " +
 		"enums: every constant -1..n+2 on write, every declared / lower-cased / padded / truncated / unknown / empty text on read; partial updates: every assignment of {none, delete, set, nested patch} to the top-level fields when 4^fields <= 4096 (PRNG assignments otherwise and at deeper levels), " +
 		"plus conflicting combinations and exclusion specs; legality is decided by the reference predicates. distinct = distinct (type, case) that were accepted/rejected as expected")
-	run.Assume("decoding an unknown enum symbol may also return an error (observed only) but must never yield another symbol", "a $set of a whole record whose sub-field is excluded is left unspecified", "both generations: the root module through types-only bindings written by its own generator from the same schema sets")
+	run.Assume("decoding an unknown enum symbol may also return an error (observed only) but must never yield another symbol", "a $set of a whole record whose sub-field is excluded is left unspecified", "both generations: the root module through bindings written by its own generator from the same schema sets")
 	rng := rand.New(rand.NewSource(run.Seed + 11))
 	budget := run.Pick(60, 600)
 	for _, set := range all.Sets {
@@ -661,9 +661,7 @@ func Run(run *ev.Run) {
 			case "record":
 				// the partial-update legality rules are enforced by the patch package, which only the v2 module has:
 				// for the root module that clause is not exercised (it has no checker to monitor)
-				if GENERATION == "v2" {
-					partialUpdates(run, set, td, rng, budget)
-				}
+				partialUpdates(run, set, td, rng, budget)
 			}
 		}
 	}
